@@ -486,6 +486,16 @@ func Run(c Case) (res Result) {
 		// after the shell prompt was recognisable is lifted first)
 		pipe.ClearFault()
 
+		// without typing anything, what login consumed (at least the shell prompt it stopped at)
+		// is readable again
+		if rb, rerr := d.Channel.ReadAll(); rerr != nil || !strings.Contains(string(rb), strings.TrimSpace(shellPrompt)) {
+			res.Verdict = ev.Fail("bytes consumed by login are not available after Open: ReadAll = %q, %v", rb, rerr)
+
+			_ = d.Close()
+
+			return res
+		}
+
 		p, perr := d.GetPrompt()
 		if perr != nil || strings.TrimSpace(p) != strings.TrimSpace(shellPrompt) {
 			res.Verdict = ev.Fail("first GetPrompt after login: %q, %v", p, perr)
